@@ -210,6 +210,9 @@ func runC04(p *Prog, r *Report) {
 	if want("C04.11") {
 		ruleTrSeqAfterFlush(p, r, "C04.11")
 	}
+	if want("C04.25") {
+		ruleReuseFileNum(p, r, "C04.25")
+	}
 	if want("C04.24") {
 		// a failed write/sync/commit step is a failure of the operation that acknowledges (shared with C08.16)
 		ruleErrorsPropagate(p, r, "C04.24", []string{"leveldb", "leveldb/journal", "leveldb/table", "leveldb/storage"}, 100)
